@@ -109,6 +109,9 @@ MATRIX = {
     "recursive-type-bindings": (OCCURS_PROGRAMS["Func.bindings"], 1),
     "recursive-type-second-binding-only": ("let f x y = y;\nlet a = f f num;\nres / on get -> <a>;\n", 1),
     "recursive-type-first-of-two-bindings": ("let f x y = x y x;\nres / on get -> <{}>;\n", 1),
+    "recursive-type-compound-left-variable-right": ("let q = ('n p) | p;\nlet p = {};\nres / on get -> <q>;\n", 1),
+    "recursive-type-variable-left-compound-right": ("let q = p | ('n p);\nlet p = {};\nres / on get -> <q>;\n", 1),
+    "recursive-type-through-a-function-result": ("let h x = 'k x;\nlet q = (h q) | q;\nres / on get -> <{}>;\n", 1),
     "two-parameter-function-ok": ("let f x y = x & y;\nres / on get -> <f {} { 'a num }>;\n", 0),
 }
 
@@ -192,6 +195,33 @@ def check():
     if not occurs_lemma(o, S, M, E, children, bad):
         return o.finish()
 
+    # ---------------------------------------------------------------- B. one unification step
+    unify_step_lemmas(o, L, S, M, E, bad)
+
+    # ---------------------------------------------------------------- C. union / reduce steps
+    union_steps(o, L, M, bad)
+
+    # ---------------------------------------------------------------- replay
+    o.samples = [{"query": q["name"], "verdict": q["verdict"]} for q in o.queries if q.get("engine") != "mirsym/z3" or "witness" not in q["name"]][:14]
+    if True:   # the real-binary oracle is cheap: always run it (replay of a failing lemma, or translator validation)
+        mism, rdir, detail = run_matrix()
+        o.extra["real_cli_matrix"] = detail
+        if bad:
+            if mism:
+                k = F.match("C07", {"lemma": bad[0][0]})
+                what = "%s; real oal-cli: %s" % ("; ".join(b[1] for b in bad[:3]), "; ".join(mism[:4]))
+                o.violation(what, rdir)
+            else:
+                o.inconc("UNCONFIRMED: a step lemma fails (%s) but the real oal-cli gives the expected verdict on all %d matrix programs" %
+                         ("; ".join(b[1] for b in bad[:3]), len(detail)))
+        elif mism:
+            o.oracle_only("real oal-cli deviates (%s) although every lemma holds" % mism[:4], rdir)
+    return o.finish()
+
+
+def unify_step_lemmas(o, L, S, M, E, bad):
+    """One unification step (shared with C04: an unsound step lets a program through that the evaluator cannot run)."""
+    VAR = E.index("Tag", "Var")
     # ---------------------------------------------------------------- B. one unification step
     ex = mirlib.executor([M])
     f_uni = M.one(r"^unify$")
@@ -293,25 +323,6 @@ def check():
         o.inconc("unify: fewer than three literal-Ok paths (eq, var-left, var-right) - unexpected shape")
     o.extra["unify_paths"] = len(outs)
 
-    # ---------------------------------------------------------------- C. union / reduce steps
-    union_steps(o, L, M, bad)
-
-    # ---------------------------------------------------------------- replay
-    o.samples = [{"query": q["name"], "verdict": q["verdict"]} for q in o.queries if q.get("engine") != "mirsym/z3" or "witness" not in q["name"]][:14]
-    if True:   # the real-binary oracle is cheap: always run it (replay of a failing lemma, or translator validation)
-        mism, rdir, detail = run_matrix()
-        o.extra["real_cli_matrix"] = detail
-        if bad:
-            if mism:
-                k = F.match("C07", {"lemma": bad[0][0]})
-                what = "%s; real oal-cli: %s" % ("; ".join(b[1] for b in bad[:3]), "; ".join(mism[:4]))
-                o.violation(what, rdir)
-            else:
-                o.inconc("UNCONFIRMED: a step lemma fails (%s) but the real oal-cli gives the expected verdict on all %d matrix programs" %
-                         ("; ".join(b[1] for b in bad[:3]), len(detail)))
-        elif mism:
-            o.oracle_only("real oal-cli deviates (%s) although every lemma holds" % mism[:4], rdir)
-    return o.finish()
 
 
 def occurs_lemma(o, S, M, E, children, bad):
